@@ -34,6 +34,7 @@ func (m *Machine) Run(t *rapid.T, weights map[string]int, minSteps, maxSteps int
 		"rename":       func() { m.OpRename(t) },
 		"importKey":    func() { m.OpImportKey(t) },
 		"importScript": func() { m.OpImportScript(t) },
+		"importPubKey": func() { m.OpImportPubKey(t) },
 		"setSynced":    func() { m.OpSetSyncedTo(t, fate()) },
 		"newScope":     func() { m.OpNewScope(t) },
 		"restart": func() {
